@@ -2,6 +2,7 @@ import TD.C06.Lemmas
 import TD.C06.LemmasPlan
 import TD.C06.LemmasLoad
 import TD.C06.LemmasMulti
+import TD.C06.LemmasSel
 import TD.C06.LemmasReads
 import TD.C06.LemmasX
 
@@ -702,5 +703,127 @@ theorem implied_x_events_partial (p : Plan) (a b c0 : Nat) (chans : List Nat) (e
         · simp [ha, exts]
 
 example : exts ((genEvents ⟨4, [4, 2]⟩ 1 6 2 [1]).toOption.getD []) = [(1, some 1), (2, some 3), (2, some 5)] := by decide
+
+/-! ## `setFrameSet_values` — the full statement for explicit (direct) X
+
+For every direct-X log pass (X channel = channel 0) whose data records lie at strictly increasing file positions — any
+number of records, any frames-per-record pattern incl. short last and empty records —, every channel list (`None`, or
+any list of existing channels, in any order, with repetitions), every slice inside the frame count (any step, or `None`)
+and every earlier frame set:
+* the load succeeds,
+* the channels of the frame set are `selIdx` = the sorted distinct requested channels plus the X channel,
+* row `i` of the matrix is `frameRowSel` of frame `start + i·step`: for each selected channel, in order, the words of
+  that channel taken from the bytes of the frame inside the record that holds it (`locate`, i.e. by `rle_lookup` what
+  `RLEType01.tellLrForFrame` finds).
+Since a row is the concatenation over the *selected* channels of per-channel words that do not depend on the selection
+(`chanRow`), the matrix of a sub-selection is the full matrix restricted to rows `range(slice)` and columns
+`chans ∪ {x}`. Hypotheses on the store: every record of the table is present with its type byte and a length of header
++ whole frames (what `index_data_record` establishes when the file is indexed); channel sizes are values × word length
+(`DatumSpecBlockRead`). Words are raw; numeric decoding is C07. -/
+
+/-- **Sub-selection is a sub-matrix (direct X), in full generality.** -/
+theorem setFrameSet_values
+    (d : Dfsr) (rle : List Item01) (st : Store) (fsOld : Option FrameSet) (sl : Option Sl) (chList : Option (List Nat))
+    (hrm : d.recMode = 0) (hn : 0 < d.chans.length) (hok : d.sizesOk)
+    (hcl : ∀ l, chList = some l → ∀ c ∈ l, c < d.chans.length)
+    (hR : IncTells (expand rle))
+    (hst : ∀ tn ∈ expand rle, ∃ bs, Store.find st tn.1.toNat = some bs ∧ bs.head? = some d.dataType ∧
+      bs.length = 2 + tn.2 * sumN (d.chans.map Chan.size))
+    (hlt : (slOrAll sl (rle01Total rle)).start < (slOrAll sl (rle01Total rle)).stop)
+    (hstop : (slOrAll sl (rle01Total rle)).stop ≤ rle01Total rle) :
+    ∃ ops, (setFrameSet ⟨d, ⟨0, d.chans.map Chan.size⟩, 0, rle, fsOld⟩ st sl chList).2 = .ok ops ∧
+      (setFrameSet ⟨d, ⟨0, d.chans.map Chan.size⟩, 0, rle, fsOld⟩ st sl chList).1.frameSet.map (·.frames)
+        = some ((rangeList (slOrAll sl (rle01Total rle)).start (slOrAll sl (rle01Total rle)).stop
+                  (slOrAll sl (rle01Total rle)).step1).map (frameRowSel d st (expand rle) (selIdx d chList))) ∧
+      (setFrameSet ⟨d, ⟨0, d.chans.map Chan.size⟩, 0, rle, fsOld⟩ st sl chList).1.frameSet.map (·.chIdx)
+        = some (selIdx d chList) := by
+  obtain ⟨hsorted, hltc, hne⟩ := selIdx_props d chList hn hcl
+  have hnewG := fun S => new_direct d S chList hrm hltc
+  generalize hcsdef : selIdx d chList = cs at hsorted hltc hne hnewG ⊢
+  cases cs with
+  | nil => exact absurd rfl hne
+  | cons c0 rest =>
+  generalize hS : slOrAll sl (rle01Total rle) = S at hlt hstop
+  obtain ⟨a, b, cc0⟩ := S
+  simp only at hlt hstop
+  have hstep : 0 < (Sl.mk a b cc0).step1 := by unfold Sl.step1; split <;> omega
+  have hnew := hnewG ⟨a, b, cc0⟩
+  simp only at hnew
+  generalize hc : (Sl.mk a b cc0).step1 = c at hstep hnew
+  have hn0 : rle01Total rle ≠ 0 := by omega
+  let loc : Nat → Int × Nat := fun f => (locate (expand rle) f).getD (0, 0)
+  have hloc : ∀ f, f < b → locate (expand rle) f = some (loc f) := by
+    intro f hf
+    obtain ⟨r, hr⟩ := locate_lt (expand rle) f (by rw [← expand_total]; omega)
+    simp [loc, hr]
+  have htell : ∀ f ∈ rangeList a b c, rle01Tell rle f = .ok (loc f) := by
+    intro f hf
+    rw [rle01Tell_locate, hloc f (mem_rangeList a b c f hf).2]
+  obtain ⟨hG, hflat⟩ := foldMap_grouped c ((rangeList a b c).map loc) [] ⟨by simp, by simp⟩
+    (chain_of_frames (expand rle) hR c hstep loc a b (fun f _ h2 => hloc f h2))
+    (by cases (rangeList a b c).map loc with
+        | nil => trivial
+        | cons q _ => exact Or.inl rfl)
+  generalize hGdef : foldMap [] ((rangeList a b c).map loc) = G at hG hflat
+  simp only [flat, List.flatMap_nil, List.nil_append] at hflat
+  have hflat' : flat G = (rangeList a b c).map loc := hflat
+  have hmap : retFrameSetMap ⟨d, ⟨0, d.chans.map Chan.size⟩, 0, rle, fsOld⟩ ⟨a, b, cc0⟩ = .ok G := by
+    unfold retFrameSetMap
+    simp only [hc]
+    rw [retFrameSetMapAux_fold rle loc _ htell, hGdef]
+    simp only [sortByKey_sorted G hG.1]
+  have hent : ∀ e ∈ G, EntryOk d st c e := by
+    intro e he
+    obtain ⟨a', len, hbuf⟩ := hG.2 e he
+    have hmemflat : (e.1, a' + len * c) ∈ flat G := by
+      simp only [flat, List.mem_flatMap, List.mem_map]
+      refine ⟨e, he, a' + len * c, ?_, rfl⟩
+      rw [hbuf, ap]; simp only [List.mem_map, List.mem_range]; exact ⟨len, by omega, rfl⟩
+    rw [hflat'] at hmemflat
+    obtain ⟨f, hf, hlf⟩ := List.mem_map.1 hmemflat
+    have hlocf := hloc f (mem_rangeList a b c f hf).2
+    rw [hlf] at hlocf
+    obtain ⟨n, hmem, hlt'⟩ := locate_mem _ _ _ _ hlocf
+    obtain ⟨bs, h1, h2, h3⟩ := hst (e.1, n) hmem
+    exact ⟨a', len, n, bs, hbuf, h1, h2, h3, hlt'⟩
+  have hlenR : rangeLen a b c = (rangeList a b c).length := by simp [rangeList]
+  have hrowsInit : ∀ row ∈ List.replicate (rangeLen a b c) (List.replicate (sumN ((selChans d (c0 :: rest)).map Chan.numValues)) (none : Option Nat)),
+      row.length = sumN ((selChans d (c0 :: rest)).map Chan.numValues) := by
+    intro row hm; rw [List.eq_of_mem_replicate hm, List.length_replicate]
+  have hsum : (G.map (·.2.length)).sum = rangeLen a b c := by
+    rw [← flat_length, hflat', List.length_map, hlenR]
+  obtain ⟨evs, r', hgen, hex, hfs⟩ := entries_exec_sel d st c ⟨0, d.chans.map Chan.size⟩ c0 rest rfl hok hstep hltc hsorted G 0
+    ⟨none, 0, ⟨c0 :: rest, rangeLen a b c,
+          List.replicate (rangeLen a b c) (List.replicate (sumN ((selChans d (c0 :: rest)).map Chan.numValues)) none),
+          [], none⟩, []⟩ hent rfl hrowsInit (by simp [hsum])
+  have hnF : rangeLen a b c ≠ 0 := by
+    have := rangeLen_lt a b c hlt hstep; omega
+  have hevs : genFrameSetEvents ⟨d, ⟨0, d.chans.map Chan.size⟩, 0, rle, fsOld⟩ ⟨a, b, cc0⟩ (c0 :: rest) = .ok evs := by
+    unfold genFrameSetEvents
+    rw [hmap]; exact hgen
+  unfold setFrameSet
+  simp only [hn0, if_false, hS, hnew, hnF, hevs, hex]
+  refine ⟨_, rfl, ?_, ?_⟩
+  · simp only [Option.map_some, hfs, Option.some.injEq]
+    rw [setRows_full]
+    · rw [flat_rows (fun t off => rowOfSel d ⟨0, d.chans.map Chan.size⟩ (c0 :: rest) (bytesOf st t.toNat) off), hflat', List.map_map]
+      apply List.map_congr_left
+      intro f hf
+      simp only [Function.comp, frameRowSel, hloc f (mem_rangeList a b c f hf).2]
+    · rw [flat_rows (fun t off => rowOfSel d ⟨0, d.chans.map Chan.size⟩ (c0 :: rest) (bytesOf st t.toNat) off), hflat']
+      simp [hlenR]
+  · simp only [Option.map_some, hfs]
+
+example : ∃ ops, (setFrameSet ⟨dfsrD, ⟨0, dfsrD.chans.map Chan.size⟩, 0, lpD.rle, none⟩ storeD (some ⟨1, 5, 2⟩) (some [2, 2])).2 = .ok ops :=
+  (setFrameSet_values dfsrD lpD.rle storeD none (some ⟨1, 5, 2⟩) (some [2, 2]) rfl (by decide)
+    (by intro c hc; simp [dfsrD] at hc; rcases hc with rfl | rfl | rfl <;> decide)
+    (by intro l hl c hc; cases hl; simp at hc; subst hc; decide)
+    (by unfold IncTells; decide) (by decide) (by decide) (by decide)).imp (fun _ h => h.1)
+
+/-- the restriction property behind "sub-matrix": the row of a selection is the concatenation of per-channel pieces that
+do not depend on the selection -/
+theorem rowSel_is_restriction (d : Dfsr) (p : Plan) (cs : List Nat) (frame : List Nat) :
+    rowSel d p cs frame = cs.flatMap (fun c => rowSel d p [c] frame) := by
+  simp [rowSel]
 
 end TD.C06
